@@ -30,7 +30,7 @@ pub fn specs() -> Vec<CheckSpec> {
             level: "fault_enumeration",
             owns: &["checked-read", "read-exact"],
             runs: (2500, 120_000),
-            rule: "a case = one stored value x one damage to its content file x every checked retrieval entry point (by key and by address, 5 API flavours); exhaustive core: every single-bit flip and every truncation length of files <= 24 B (quick) / <= 64 B (thorough); beyond that seeded damage (flip, truncate, extend, empty, garble, replace with / swap with / symlink to another valid entry, delete, mid-stream damage). Non-trivial = the damaged file was actually opened by a checked retrieval; distinct by hash of the normalised step/result log",
+            rule: "a case = one stored value x one damage to its content file x every checked retrieval entry point (by key and by address, 5 API flavours); exhaustive core: every single-bit flip and every truncation length of files <= 24 B (quick) / <= 64 B (thorough); beyond that seeded damage (flip, truncate, extend, empty, garble, replace with / swap with / symlink to another valid entry, delete, mid-stream damage). Non-trivial = the damaged file was actually opened by a checked retrieval; distinct by hash of the normalised step/result log. Reader schedules include empty buffers, exactly the stored length followed by an empty buffer, small-then-large buffers, reads after end of file and read_to_end into a part-filled vector; checked copies go onto existing longer / same-length files and onto the hard link an extraction has just made; a key is sometimes attached to the content by a raw index record without a size",
             assumptions: A_COMMON,
         },
         CheckSpec {
@@ -39,7 +39,7 @@ pub fn specs() -> Vec<CheckSpec> {
             level: "exploration",
             owns: &["write-ok", "address", "read-exact", "lookup", "missing-content", "commit-accept", "content-integrity"],
             runs: (4000, 250_000),
-            rule: "a case = a seeded history of 1-5 writes (all entry points, chunkings incl. empty/decreasing/single-byte chunks, flush, 5 algorithms, hostile keys, sizes 0..3 MiB around the 1 MiB mmap threshold, declared size correct or absent) each followed by reads by key and by address through a drawn flavour and finally through all three. Non-trivial = at least one write succeeded and was read back; distinct by hash of the normalised step/result log. Declared sizes are wrong in 1 of 6 declarations (rejection demanded, lookups unchanged). 2 runs in 16 are the own-writes family under the system-call scheduler: one async client reads back at once what it has just written or removed while system calls its previous call left on runtime pool threads are still parked; the schedule (canonical-first, seeded random, PCT) decides which goes first",
+            rule: "a case = a seeded history of 1-5 writes (all entry points, chunkings incl. empty/decreasing/single-byte chunks, flush, 5 algorithms, hostile keys, sizes 0..3 MiB around the 1 MiB mmap threshold, declared size correct or absent) each followed by reads by key and by address through a drawn flavour and finally through all three. Non-trivial = at least one write succeeded and was read back; distinct by hash of the normalised step/result log. Declared sizes are wrong in 1 of 6 declarations (rejection demanded, lookups unchanged). 2 runs in 16 are the own-writes family under the system-call scheduler: one async client reads back at once what it has just written or removed while system calls its previous call left on runtime pool threads are still parked; the schedule (canonical-first, seeded random, PCT) decides which goes first. Options are sometimes set twice (other values first), writes sometimes go through write_vectored, reads through read_to_end / small-then-large buffers; 2 runs in 32 use paths that are not valid UTF-8",
             assumptions: A_COMMON,
         },
         CheckSpec {
@@ -48,7 +48,7 @@ pub fn specs() -> Vec<CheckSpec> {
             level: "exploration",
             owns: &["lookup", "read-exact", "missing-content"],
             runs: (2500, 150_000),
-            rule: "exhaustive core: every history of length <= 4 (quick) / <= 5 (thorough) over {2 keys} x {write short record, write long record, remove} with a full audit (metadata, read, list of every key) after every step through a drawn flavour; then seeded histories of 2-40 ops over 1-6 keys with mixed sync/async flavours and valid foreign-key records planted in bucket files. Non-trivial = history contains a re-write or a removal of a previously written key; distinct by hash of the normalised log. 1 run in 16 is the own-writes family under the system-call scheduler (see C02)",
+            rule: "exhaustive core: every history of length <= 4 (quick) / <= 5 (thorough) over {2 keys} x {write short record, write long record, remove} with a full audit (metadata, read, list of every key) after every step through a drawn flavour; then seeded histories of 2-40 ops over 1-6 keys with mixed sync/async flavours and valid foreign-key records planted in bucket files. Non-trivial = history contains a re-write or a removal of a previously written key; distinct by hash of the normalised log. 1 run in 16 is the own-writes family under the system-call scheduler (see C02); 1 run in 14 uses keys whose buckets share index directories, with a lazily consumed listing during which the caller removes one of them for good",
             assumptions: A_COMMON,
         },
         CheckSpec {
@@ -66,7 +66,7 @@ pub fn specs() -> Vec<CheckSpec> {
             level: "exploration",
             owns: &["commit-reject", "commit-accept", "lookup", "listing", "abandon-trace", "read-exact", "missing-content"],
             runs: (3000, 150_000),
-            rule: "a case = prior state of the key (absent/present/removed) x one commit with declared size in {len, len-1, len+1, 0, len+1MiB} and/or declared integrity in {correct, wrong digest, other algorithm, multi-hash} x chunking x entry point x flavour, followed by lookups through all flavours. Non-trivial = the declaration mismatched (a rejection was demanded); distinct by log hash",
+            rule: "a case = prior state of the key (absent/present/removed) x one commit with declared size in {len, len-1, len+1, 0, len+1MiB} and/or declared integrity in {correct, wrong digest, other algorithm, multi-hash} x chunking x entry point x flavour, followed by lookups through all flavours. Non-trivial = the declaration mismatched (a rejection was demanded); distinct by log hash. Also: options set twice (the last call counts), write_vectored, multi-hash declarations with a stronger correct hash (must be accepted), the true address of the bystander's value as a wrong declaration, and the abandon-chunk family under the system-call scheduler (a declared size equal to the bytes the writer acknowledged must be accepted)",
             assumptions: A_COMMON,
         },
         CheckSpec {
@@ -75,7 +75,7 @@ pub fn specs() -> Vec<CheckSpec> {
             level: "exploration",
             owns: &["removal", "lookup", "read-exact", "missing-content", "exists", "listing", "content-lost"],
             runs: (2000, 120_000),
-            rule: "a case = seeded history (3-30 ops) over 2-8 keys sharing 1-3 values mixing writes with remove, remove_hash, remove_fully, clear; after every op a full audit (metadata, read, read_hash, exists of every key/address of the model, listing). Non-trivial = contains >= 1 successful removal of something present. A write that fails after a clear of the same history is a violation (the cleared cache must stay usable). 1 run in 10 removes neighbours in one content shard directory; 1 run in 16 is the own-writes family under the system-call scheduler (see C02)",
+            rule: "a case = seeded history (3-30 ops) over 2-8 keys sharing 1-3 values mixing writes with remove, remove_hash, remove_fully, clear; after every op a full audit (metadata, read, read_hash, exists of every key/address of the model, listing). Non-trivial = contains >= 1 successful removal of something present. A write that fails after a clear of the same history is a violation (the cleared cache must stay usable). 1 run in 10 removes neighbours in one content shard directory; 1 run in 16 is the own-writes family under the system-call scheduler (see C02); 1 run in 12 uses keys whose buckets share index directories (with a lazily consumed listing during which one of them is removed for good); clears come in a row, with a leaked temp file in tmp/, or on a cache whose content-v2 is a symlink",
             assumptions: A_COMMON,
         },
         CheckSpec {
@@ -138,7 +138,7 @@ pub fn specs() -> Vec<CheckSpec> {
             level: "fault_enumeration",
             owns: &["extract", "extract-leftover", "checked-read"],
             runs: (2500, 120_000),
-            rule: "a case = stored value x (pristine | one damage class of C01 | content missing | key missing) x every extraction entry point (copy/hard_link/reflink, checked/unchecked, key/address, 5 flavours) x destination (absent, existing file, directory, inside cache). Non-trivial = an extraction ran against damaged or missing content, or succeeded and was compared byte-for-byte; existing destinations are longer than the data or exactly as long with other bytes, or the destination of an earlier extraction of the same run (possibly a hard link to the content file); reflink runs through the FICLONE stub of the system-call simulator",
+            rule: "a case = stored value x (pristine | one damage class of C01 | content missing | key missing) x every extraction entry point (copy/hard_link/reflink, checked/unchecked, key/address, 5 flavours) x destination (absent, existing file, directory, inside cache). Non-trivial = an extraction ran against damaged or missing content, or succeeded and was compared byte-for-byte; existing destinations are longer than the data or exactly as long with other bytes, or the destination of an earlier extraction of the same run (possibly a hard link to the content file); reflink runs through the FICLONE stub of the system-call simulator; destinations that are symlinks to the entry's own content file; a key attached by a raw index record without a size; after the extractions the entry is sometimes removed, the cache cleared or the value re-written, and every file an extraction handed out must still hold what was delivered",
             assumptions: A_COMMON,
         },
         CheckSpec {
@@ -147,7 +147,7 @@ pub fn specs() -> Vec<CheckSpec> {
             level: "exploration",
             owns: &["linkto", "read-exact", "checked-read", "lookup", "meta-fields", "missing-content"],
             runs: (2500, 100_000),
-            rule: "a case = link_to of a target (0 B .. 40 KiB; absolute or relative path with the worker's cwd changed) through every link entry point with partial reads before commit and right/wrong declared size/integrity, then target modified / truncated / removed / replaced / restored, reads by key and address. Non-trivial = a link was committed and read back or rejected; targets spelled through a directory symlink followed by '..' (with and without a decoy at the textually folded path); extractions whose destination is the linked file itself; twin targets with identical bytes, relinking after the first target is gone",
+            rule: "a case = link_to of a target (0 B .. 40 KiB; absolute or relative path with the worker's cwd changed) through every link entry point with partial reads before commit and right/wrong declared size/integrity, then target modified / truncated / removed / replaced / restored, reads by key and address. Non-trivial = a link was committed and read back or rejected; targets spelled through a directory symlink followed by '..' (with and without a decoy at the textually folded path); extractions whose destination is the linked file itself; twin targets with identical bytes, relinking after the first target is gone; read-only targets (bytes and permission bits of every target are compared at the end); a silent same-length change of the target followed by a re-link of the same key; declared integrities of other algorithms that are digests of other data (must be rejected)",
             assumptions: A_COMMON,
         },
         CheckSpec {
